@@ -185,6 +185,18 @@ pub fn histories(tier: Tier) -> Vec<Hist> {
             ],
             deleted_nodes: vec![], deleted_refs: vec![], c11: false,
         },
+        // a member who joined AFTER the last change of a row deletes it: its right counts at the date of the deletion
+        Hist {
+            name: "late-member:row-deleted-by-a-member-who-joined-after-its-last-change",
+            peers: 3,
+            steps: vec![
+                Step::Clock(1), cp(0, 0, "a"), Step::Pull { dst: 1, src: 0 },
+                Step::Clock(5), Step::RoomEvent(REvent::AddUser { group: 0, key: 2, enabled: true }),
+                Step::Clock(6), Step::Pull { dst: 2, src: 0 }, Step::Pull { dst: 1, src: 0 },
+                Step::Clock(9), Step::Delete { peer: 2, slot: 0 },
+            ],
+            deleted_nodes: vec![0], deleted_refs: vec![], c11: true,
+        },
         // day boundaries: the first and the last millisecond of a day belong to exactly one day for the summary,
         // the served rows and the deletion records alike
         Hist {
@@ -336,7 +348,9 @@ async fn tombstone_monitor(w: &SyncWorld<'_>, h: &Hist) -> Result<Option<String>
 }
 
 pub async fn run_path(u: &Universe, prop: &str, h: &Hist, path: &Path, out: &mut Outcome, verbose: bool) -> Result<(), String> {
-    let mut w = SyncWorld::new(u, h.peers).await?;
+    // histories named "late-member:..." start with one member less: the last identity joins during the history
+    let members = if h.name.starts_with("late-member:") { h.peers - 1 } else { h.peers };
+    let mut w = SyncWorld::new_with_members(u, h.peers, members).await?;
     let replay = json!({"history": h.name, "order": path.order, "cut": path.cut});
     for s in &h.steps {
         w.step(s).await?;
